@@ -50,8 +50,25 @@ pub fn parse_uint(i: &[u8]) -> nom::IResult<&[u8], u64> {
     Ok((i, i.iter().fold(0, |res, &byte| (res << 8) | byte as u64)))
 }
 
+/// Maximum nesting depth of constructed elements accepted by [`parse_tag()`](fn.parse_tag.html).
+///
+/// The parser, as well as cloning and dropping of the resulting structure, is recursive;
+/// without a limit, a small input consisting of deeply nested elements would exhaust
+/// the stack. No LDAP PDU comes anywhere near this depth.
+pub const MAX_DEPTH: usize = 128;
+
 /// Parse raw BER data into a serializable structure.
 pub fn parse_tag(i: &[u8]) -> nom::IResult<&[u8], StructureTag> {
+    parse_tag_at_depth(i, 0)
+}
+
+fn parse_tag_at_depth(i: &[u8], depth: usize) -> nom::IResult<&[u8], StructureTag> {
+    if depth > MAX_DEPTH {
+        return Err(nom::Err::Failure(Error::from_error_kind(
+            i,
+            ErrorKind::TooLarge,
+        )));
+    }
     let (mut i, ((class, structure, id), len)) = tuple((parse_type_header, parse_length))(i)?;
 
     let pl: PL = match structure {
@@ -70,7 +87,7 @@ pub fn parse_tag(i: &[u8]) -> nom::IResult<&[u8], StructureTag> {
                 // The length of this element is satisfied, so its content is all there
                 // is: a nested element which doesn't fit is an error, not a reason to
                 // wait for more input.
-                let (j, sub) = parse_tag(content).map_err(|e| match e {
+                let (j, sub) = parse_tag_at_depth(content, depth + 1).map_err(|e| match e {
                     nom::Err::Incomplete(_) => {
                         nom::Err::Error(Error::from_error_kind(content, ErrorKind::Eof))
                     }
